@@ -246,7 +246,15 @@ func runC14(c *Ctx) {
 	checkProtoSigners(c)
 
 	// ---- R6 ------------------------------------------------------------------------------------
-	c.Rule("R6", "rejections are errors: every return of a provider message handler that lies on a failed-guard edge carries a non-nil error (so the router rolls the message back)", 6)
+	c.Rule("R6", "rejections are errors: every return of a provider message handler that lies on a failed-guard edge carries a non-nil error (so the router rolls the message back); no errorsmod.Wrap/Wrapf anywhere in the modules wraps a possibly-nil error (Wrap(nil) is nil: the rejection would succeed after its effects)", 6)
+	nWrap := 0
+	for _, ws := range wrapSites(c.P, "pk", "pt", "ck", "ct", "provider", "consumer", "ccv") {
+		nWrap++
+		if !ws.OK {
+			c.Check(false, fk(topFn(ws.Fn), "wrap-of-possibly-nil-error"), ws.Call, "errorsmod.Wrap/Wrapf of "+describe(callArgs(ws.Call)[0])+", which is not known to be non-nil here")
+		}
+	}
+	c.Check(nWrap >= 200, "wrap-sites/census", nil, fmt.Sprintf("%d Wrap/Wrapf sites: each wraps a sentinel, a fresh error or an error tested non-nil on every path", nWrap))
 	for _, h := range []string{"pk.msgServer.UpdateConsumer", "pk.msgServer.RemoveConsumer", "pk.msgServer.UpdateParams", "pk.msgServer.ChangeRewardDenoms", "ck.msgServer.UpdateParams"} {
 		f := c.Fn(h)
 		if f == nil {
